@@ -143,9 +143,16 @@ def normalise(fn):
             # N-EQ
             elif k == 'BinaryOperator' and n.op in ('==', '!='):
                 l, r = n.child('lhs'), n.child('rhs')
-                if l is not None and r is not None and is_const_expr(l) and not is_const_expr(r) and not has_side_effects(r):
-                    set_children(n, [(r, 'lhs'), (l, 'rhs')])
-                    changed = True
+                if l is not None and r is not None and not has_side_effects(l) and not has_side_effects(r):
+                    cl, cr = is_const_expr(l), is_const_expr(r)
+                    swap = (cl and not cr)
+                    if not cl and not cr:
+                        # neither is a constant: the simpler operand first (ties: by text), so that `a == b` and `b == a` coincide
+                        kl, kr = (sum(1 for _ in strip(l).walk()), strip(l).text()), (sum(1 for _ in strip(r).walk()), strip(r).text())
+                        swap = kr < kl
+                    if swap:
+                        set_children(n, [(r, 'lhs'), (l, 'rhs')])
+                        changed = True
             # N-NOT
             elif k == 'IfStmt' and n.child('else') is not None and n.child('init') is None:
                 c = strip(n.child('cond'))
@@ -190,17 +197,10 @@ def normalise(fn):
                                 if neg:
                                     replace_child(cond, cond.child('sub'), init)
                                 else:
-                                    holder = b
-                                    cur = b.child('cond')
-                                    # keep the (bool) conversion wrapper when there is one
-                                    if cur is not tgt:
-                                        p_ = tgt.parent
-                                        replace_child(p_, tgt, init)
-                                    else:
-                                        replace_child(holder, cur, init)
+                                    replace_child(b, b.child('cond'), init)       # the wrapper was only the load of the temporary
                                 ch.pop(i)
                                 done = True
-                    if not done and v is not None and v.child('init') is None and '&' not in (v.t or '') and '[' not in (v.t or '') and not (v.t or '').startswith('const ') \
+                    if not done and v is not None and v.child('init') is None and '&' not in (v.t or '') and '[' not in (v.t or '') and not _const_var(v.t) \
                             and b.k == 'BinaryOperator' and b.op == '=' and strip(b.child('lhs')) is not None and strip(b.child('lhs')).k == 'DeclRefExpr' and strip(b.child('lhs')).d == v.d \
                             and not any(x.k == 'DeclRefExpr' and x.d == v.d for x in b.child('rhs').walk()) and _scalar(v.t):
                         set_children(v, pairs(v) + [(b.child('rhs'), 'init')])
@@ -235,6 +235,13 @@ def normalise(fn):
                         if len(inner) == 1 and inner[0].k not in ('DeclStmt', 'CompoundStmt') and not (role == 'then' and inner[0].k == 'IfStmt' and n.child('else') is not None):
                             replace_child(n, b, inner[0])
                             changed = True
+
+
+def _const_var(t):
+    t = (t or '').strip()
+    if '*' in t:
+        return t.endswith('const')
+    return t.startswith('const ') or t.endswith(' const')
 
 
 def _scalar(t):
